@@ -227,9 +227,107 @@ impl<T> Receiver<T> {
         let _rt = crate::RtGuard::new();
         self.len() == 0
     }
+    /// Blocking iterator: ends when the channel is empty and every sender is gone.
+    pub fn iter(&self) -> Iter<'_, T> {
+        Iter(self)
+    }
+    /// Non-blocking iterator: ends at the first moment the channel is empty.
+    pub fn try_iter(&self) -> TryIter<'_, T> {
+        TryIter(self)
+    }
+    /// The simulation has no clock: with an empty channel a timeout is a legal outcome at any moment, so the
+    /// scheduler decides between "timed out now" and "wait for a message" (a wait that nothing can end times out).
+    pub fn recv_timeout(&self, _d: std::time::Duration) -> Result<T, RecvTimeoutError> {
+        match self.try_recv() {
+            Ok(t) => return Ok(t),
+            Err(TryRecvError::Disconnected) => return Err(RecvTimeoutError::Disconnected),
+            Err(TryRecvError::Empty) => {}
+        }
+        if crate::decide(2) == 0 {
+            crate::count("reach.recv_timeout_fired");
+            return Err(RecvTimeoutError::Timeout);
+        }
+        self.recv().map_err(|_| RecvTimeoutError::Disconnected)
+    }
+    pub fn recv_deadline(&self, _t: std::time::Instant) -> Result<T, RecvTimeoutError> {
+        self.recv_timeout(std::time::Duration::ZERO)
+    }
     /// (non-empty, disconnected) — must be called with the runtime lock held
     fn state(&self) -> (bool, bool) {
         (unsafe { !(*self.0.q.get()).is_empty() }, self.0.senders.get() == 0)
+    }
+}
+
+#[derive(Debug, PartialEq, Eq, Clone, Copy)]
+pub enum RecvTimeoutError {
+    Timeout,
+    Disconnected,
+}
+impl std::fmt::Display for RecvTimeoutError {
+    fn fmt(&self, f: &mut std::fmt::Formatter<'_>) -> std::fmt::Result {
+        write!(f, "{self:?}")
+    }
+}
+impl std::error::Error for RecvTimeoutError {}
+pub struct Iter<'a, T>(&'a Receiver<T>);
+impl<T> Iterator for Iter<'_, T> {
+    type Item = T;
+    fn next(&mut self) -> Option<T> {
+        self.0.recv().ok()
+    }
+}
+pub struct TryIter<'a, T>(&'a Receiver<T>);
+impl<T> Iterator for TryIter<'_, T> {
+    type Item = T;
+    fn next(&mut self) -> Option<T> {
+        self.0.try_recv().ok()
+    }
+}
+pub struct IntoIter<T>(Receiver<T>);
+impl<T> Iterator for IntoIter<T> {
+    type Item = T;
+    fn next(&mut self) -> Option<T> {
+        self.0.recv().ok()
+    }
+}
+impl<T> IntoIterator for Receiver<T> {
+    type Item = T;
+    type IntoIter = IntoIter<T>;
+    fn into_iter(self) -> IntoIter<T> {
+        IntoIter(self)
+    }
+}
+impl<'a, T> IntoIterator for &'a Receiver<T> {
+    type Item = T;
+    type IntoIter = Iter<'a, T>;
+    fn into_iter(self) -> Iter<'a, T> {
+        Iter(self)
+    }
+}
+#[derive(Debug, PartialEq, Eq, Clone, Copy)]
+pub enum TrySendError<T> {
+    Full(T),
+    Disconnected(T),
+}
+impl<T> Sender<T> {
+    pub fn try_send(&self, t: T) -> Result<(), TrySendError<T>> {
+        let _rt = crate::RtGuard::new();
+        yield_point("try_send");
+        let full = locked(|_| self.0.cap.map(|cap| unsafe { (*self.0.q.get()).len() } >= cap).unwrap_or(false));
+        if self.0.receivers.get() == 0 {
+            return Err(TrySendError::Disconnected(t));
+        }
+        if full {
+            return Err(TrySendError::Full(t));
+        }
+        self.send(t).map_err(|e| TrySendError::Disconnected(e.0))
+    }
+    pub fn is_full(&self) -> bool {
+        let _rt = crate::RtGuard::new();
+        locked(|_| self.0.cap.map(|cap| unsafe { (*self.0.q.get()).len() } >= cap).unwrap_or(false))
+    }
+    pub fn capacity(&self) -> Option<usize> {
+        self.0.cap
     }
 }
 
